@@ -1804,6 +1804,147 @@ def gen_xr(tier):
         yield (orient, kind, loc, "tile", (32, 32), dst, req, aenc, tight, tol)
 
 
+# ---------------------------------------------------------------------------------------------
+# option pairs: a shape request given TOGETHER with a resolution request (and the other options), every entry point
+# ---------------------------------------------------------------------------------------------
+# shape request: (form, ...) - "t" a (ny, nx) tuple, "S" a Shape2d object, "l" a list, "n" an int N, "f" a float N
+PAIR_SHAPE_Q = (("t", 7, 40), ("S", 32, 32), ("n", 50))
+PAIR_SHAPE_T = PAIR_SHAPE_Q + (("l", 1, 1), ("n", 1), ("f", 333), ("t", 100, 3))
+# resolution request given next to it: a keyword (spelled out, "auto" too), a number / Resolution object (the EXPL
+# encodings: multiples of the nominal pixel in the target's units), or a keyword with round_resolution=
+PAIR_RES_Q = ("auto", "fit", "same", ("s", 2.5), ("xy", 1.0, -2.0), ("xy", -1.0, 1.0), ("rnd", "fit", "True"))
+PAIR_RES_T = PAIR_RES_Q + (("s", 1.0), ("s", 1 / 3), ("s", 10.0), ("s", -2.0), ("xy", 0.7, 0.7), ("rnd", "auto", "callable"),
+                           ("rnd", "same", "True"))
+PAIR_API = ("cog", "to_crs", "xr", "reproject")
+
+
+def pair_res_class(res):
+    if isinstance(res, str):
+        return f"keyword-{res}"
+    return {"s": "number", "xy": "Resolution", "rnd": "keyword+round_resolution"}[res[0]]
+
+
+def gen_pairs(tier):
+    t = tier == "thorough"
+    shapes = PAIR_SHAPE_T if t else PAIR_SHAPE_Q
+    ress = PAIR_RES_T if t else PAIR_RES_Q
+    yield from itertools.product(PAIR_API, ORIENT, SRC_KINDS if t else ("deg", "utmz"), ("eu",), ("tile",), ((32, 32),), DST4,
+                                 shapes, ress, (ANCHOR3 + ("floating",)) if t else ("default", "center"), TIGHT, (0.01,))
+    # 'utm' keyword targets (resolving the keyword costs ~0.1 s a call): the function and the method only
+    yield from itertools.product(("cog", "to_crs") if t else ("cog",), ORIENT if t else ("nu",), ("deg", "utmz"), ("eu",), ("tile",),
+                                 ((32, 32),), UTM_ARGS if t else ("utm",), PAIR_SHAPE_Q,
+                                 ("same", ("s", 2.5), ("xy", 1.0, -2.0)), ("default",), TIGHT if t else (False,), (0.01,))
+    if t:
+        # other places / extents, the tol argument given as well
+        yield from itertools.product(("cog",), ORIENT, SRC_KINDS, ("au", "sa"), ("regional",), ((32, 32), (5, 7)), DST4,
+                                     PAIR_SHAPE_Q, PAIR_RES_Q, ("default", 0.25), TIGHT, TOL2)
+
+
+def _approx_grid(g1, g2):
+    """same shape, CRS and - to 1e-6 of a pixel at the origin and at the far corner - the same affine (a grid read back
+    from the coordinates of an xarray object; the round trip itself is C09's subject)"""
+    if not (isinstance(g1, GeoBox) and isinstance(g2, GeoBox) and g1.crs == g2.crs and tuple(g1.shape) == tuple(g2.shape)):
+        return False
+    A1, A2 = g1.affine, g2.affine
+    ny, nx = g2.shape
+    px, py = abs(A2.a), abs(A2.e)
+    return (A1.b == A2.b and A1.d == A2.d
+            and abs(A1.c - A2.c) <= 1e-6 * px and abs(A1.f - A2.f) <= 1e-6 * py
+            and abs(A1.a - A2.a) * nx <= 1e-6 * px and abs(A1.e - A2.e) * ny <= 1e-6 * py)
+
+
+def run_pairs(case):
+    from odc.geo.types import shape_  # pylint: disable=import-outside-toplevel
+
+    api, orient, kind, loc, extent, sshape, dst_enc, shp, res, aenc, tight, tol = case
+    S = make_src(kind, loc, extent, sshape, orient)
+    r = R()
+    xx = None
+    if api in ("xr", "reproject"):
+        from odc.geo.xr import xr_zeros  # pylint: disable=import-outside-toplevel
+
+        xx = xr_zeros(S.gbox, dtype="uint8")
+        gb = xx.odc.geobox
+        if not isinstance(gb, GeoBox) or gb.crs is None or gb.crs.epsg != S.epsg or tuple(gb.shape) != tuple(sshape):
+            r.outcome, r.nontrivial = f"pairs:{api}:no-geobox", False  # registration round trip is C09's subject
+            return r
+        S0, S = S, Src()
+        S.key, S.epsg, S.kind, S.orient, S.extent, S.shape, S.p = S0.key, S0.epsg, kind, orient, extent, sshape, S0.p
+        S.coef = tuple(float(v) for v in tuple(gb.affine)[:6])
+        S.gbox, S._memo = gb, {}
+    crs_arg, want, _ = dst_arg_of(dst_enc, S, loc)
+    dst_u = "metre" if want is None else unit_class(want)  # the utm keywords name metre-based CRSs
+    form = shp[0]
+    plain = int(shp[1]) if form in "nf" else (shp[1], shp[2])
+    shape_val = {"t": lambda: plain, "S": lambda: shape_(plain), "l": lambda: list(plain), "n": lambda: plain,
+                 "f": lambda: float(plain)}[form]()
+    # the request without any resolution argument ...
+    kw_ref = {"shape": shape_val}
+    if aenc != "default":
+        kw_ref["anchor"] = anchor_arg(aenc)[0]
+    if tight:
+        kw_ref["tight"] = True
+    if tol != 0.01:
+        kw_ref["tol"] = tol
+    # ... and with one
+    kw = dict(kw_ref)
+    if isinstance(res, str):
+        kw["resolution"] = res
+    elif res[0] == "rnd":
+        kw["resolution"] = res[1]
+        kw["round_resolution"] = True if res[2] == "True" else _round_to_7
+    else:
+        kw["resolution"] = res_value(res, S, dst_u)[0]
+    rc = pair_res_class(res)
+    pc = f"shape-{'int' if form in 'nf' else 'tuple'}({form})+resolution-{rc}"
+    src_txt = None if xx is None else f"xr_zeros(GeoBox({sshape}, Affine{S.coef}, {crs_spec(S.epsg)!r}))"
+    a_txt = ", ".join(f"{k}={v!r}" for k, v in kw.items())
+    if api == "reproject":
+        what = f"{src_txt}.odc.reproject({crs_arg!r}, {a_txt}).odc.geobox"
+    elif api == "xr":
+        what = f"{src_txt}.odc.output_geobox({crs_arg!r}, {a_txt})"
+    else:
+        what = call_txt(api, S, crs_arg, kw)
+
+    gf = compute_output_geobox(S.gbox, crs_arg, **kw)
+    kd = f"{S.kind}->{dst_enc}:{S.orient}:{pc}"
+    if api == "cog":
+        g = gf
+    elif api == "to_crs":
+        g = S.gbox.to_crs(crs_arg, **kw)
+    elif api == "xr":
+        g = xx.odc.output_geobox(crs_arg, **kw)
+    else:
+        out = xx.odc.reproject(crs_arg, **kw)
+        g = gf  # every clause is judged on the grid the function computes for the same arguments; the raster's own ...
+        got_shape = tuple(int(v) for v in out.shape[-2:])
+        if not isinstance(gf, GeoBox) or got_shape != tuple(gf.shape):
+            # ... pixel count must be that grid's
+            r.fail(f"entry-points-differ:reproject:shape:{kd}",
+                   f"{what}: raster of {got_shape} pixels, but compute_output_geobox with the same arguments -> {gf!r}")
+        elif not _approx_grid(out.odc.geobox, gf):
+            r.fail(f"entry-points-differ:reproject:{kd}",
+                   f"{what} -> {out.odc.geobox!r}, but compute_output_geobox with the same arguments -> {gf!r}")
+    if api in ("to_crs", "xr") and not same_grid(g, gf):
+        r.fail(f"entry-points-differ:{api}:{kd}", f"{what} -> {g!r}, but compute_output_geobox with the same arguments -> {gf!r}")
+
+    # the property's shape clauses: exactly that shape / longest side, pixel size from the footprint, displaced < 1 px,
+    # requested alignment - whatever resolution= says
+    r1 = R()
+    judge(r1, S, loc, dst_enc, ("shape", plain), aenc, tight, tol, g, what)
+    for f in r1.fails:
+        r.fail(f"{f.key}:{pc}:{api}", f.msg)
+    # documented: resolution= is ignored when shape= is supplied -> the grid of the same request without it
+    g0 = compute_output_geobox(fresh_instance(S).gbox if xx is None else S.gbox, crs_arg, **kw_ref)
+    if not same_grid(gf, g0):
+        r.fail(f"shape:resolution-not-ignored:{kd}",
+               f"{call_txt('cog', S, crs_arg, kw, src_txt and src_txt + '.odc.geobox')} -> {gf!r}, but without the resolution argument(s) -> {g0!r}")
+    lab = r1.outcome.split(":")
+    r.nontrivial = r1.nontrivial
+    r.outcome = f"pairs:{api}:{pc}:" + ":".join(lab[:-3] if len(lab) > 4 else lab)
+    return r
+
+
 def slices(tier):
     for k_, s_ in NOEPSG.items():
         if _new_pcrs(s_).to_epsg() is not None:
@@ -1873,6 +2014,11 @@ def slices(tier):
         S("entry-points", gen_api, run_case,
           "GeoBox.to_crs, every argument given explicitly, CRS object and integer EPSG as crs="),
         S("xarray", gen_xr, run_xr, "xr_zeros(src).odc.output_geobox(...)"),
+        S("option-pairs", gen_pairs, run_pairs,
+          "shape= (tuple / Shape2d / list / int / float) given TOGETHER with resolution= (every keyword spelled out, numbers, "
+          "Resolution objects, keyword + round_resolution) x anchor x tight on compute_output_geobox, GeoBox.to_crs, "
+          ".odc.output_geobox and .odc.reproject: the shape clauses hold whatever resolution= says, the grid is the one the "
+          "request gives without resolution=, and every entry point returns the function's grid"),
     ]
 
 
@@ -1900,6 +2046,9 @@ def main(ctx):
         "tight": [False, True],
         "tol": list(TOL_T if t else TOL2),
         "shape_requests": [repr(s[1]) for s in (SHAPE_REQ_T if t else SHAPE_REQ_Q)],
+        "option_pairs": {"shape(form, ...)": [list(v) for v in (PAIR_SHAPE_T if t else PAIR_SHAPE_Q)],
+                         "resolution_given_with_it": [repr(v) for v in (PAIR_RES_T if t else PAIR_RES_Q)],
+                         "entry_points": list(PAIR_API)},
         "far_origin": {"families(kind, location, source pixel, other target)": [list(f) for f in FAR],
                        "output_px_over_source_px": list(FAR_RATIO_T if t else FAR_RATIO_Q),
                        "edge_phase_output_px": list(FAR_PHASE_T if t else FAR_PHASE_Q), "edges": list(FAR_EDGE),
@@ -1966,6 +2115,13 @@ def main(ctx):
         "in the SOURCE CRS: exact for the own-CRS target, for the other-CRS target it only makes the edges sweep the output "
         "pixel; the oracle is unchanged (every source pixel corner, identity / fresh pyproj, inside up to tol * output pixel); "
         "pyproj's transformer between a CRS and itself returns its input unchanged (no-op pipeline)",
+        "option-pairs: 'Takes precedence over resolution=' / 'resolution: ignored if shape= is supplied' (docstrings of "
+        "compute_output_geobox, GeoBox.to_crs, xr_reproject): with shape= every shape clause is judged exactly as in the "
+        "shape-request slice and the grid must equal the one computed without resolution= / round_resolution=; only "
+        "resolution values that are valid on their own are in the alphabet (whether an invalid keyword next to shape= is "
+        "reported is not part of the property); .odc.reproject: the raster's pixel count must be that of the function's grid "
+        "for the same arguments and the grid read back from its coordinates agree with it to 1e-6 pixel (the read-back is "
+        "C09's subject), the clauses are judged on the function's grid",
         "mirrored-sources: axis-aligned GeoBoxes whose columns run east-west and/or rows south-north are source GeoBoxes "
         "like any other (the quantifier's 'north-up and rotated' is read as 'any orientation'); kept in their own slice, "
         "finding keys carry the orientation (mx / su / r180)",
